@@ -303,12 +303,33 @@ theorem spawn_fresh (u : C13.St κ) (t : Task) (h : u.started t = false) :
                                        ours := upd u.ours t true, foreign := upd u.foreign t false } := by
   unfold C13.spawnStep; simp [h]
 
+theorem invR_killUnstarted (s : St κ) (t : Task) (h : InvR s) (hp : s.phase t = .created) :
+    InvR (killUnstarted s t) := by
+  unfold killUnstarted
+  have hnl : ¬ Live s t := by unfold Live; rw [hp]; simp
+  refine invR_update s _ t h ?_ ?_ ?_ ?_ ?_ ?_ ?_ ?_ ?_
+  · exact mapsInv_congr s.u _ h.maps rfl rfl rfl
+  · intro x hx
+    exact ⟨upd_other _ _ _ _ hx, fun hc => hc, rfl, upd_other _ _ _ _ hx, upd_other _ _ _ _ hx, rfl, rfl, rfl,
+           upd_other _ _ _ _ hx, rfl⟩
+  · constructor
+    · intro hl; exact absurd ((h.live t).1 hl) hnl
+    · intro hl; unfold Live at hl; simp at hl
+  · intro hh; simp at hh
+  · intro _; exact Or.inr (Or.inr (by simp))
+  · intro _; exact Or.inr (Or.inr (by simp))
+  · intro _; exact Or.inr (by simp)
+  · intro _; exact Or.inr (by simp)
+  · intro _ hk; simp at hk
+
 theorem invR_start (s : St κ) (t : Task) (h : InvR s) : InvR (startStep s t) := by
   unfold startStep
   split
   · exact h
   · rename_i hp
     have hp : s.phase t = .created := Classical.not_not.1 hp
+    split
+    · exact invR_killUnstarted s t h hp
     have hsp := spawn_fresh s.u t (h.fresh t (Or.inr hp))
     refine invR_update s _ t h ?_ ?_ ?_ ?_ ?_ ?_ ?_ ?_ ?_
     · exact mapsInv_congr s.u _ h.maps (by simp only [hsp]) (by simp only [hsp]) (by simp only [hsp])
@@ -407,7 +428,10 @@ theorem invR_unique (s : St κ) (t : Task) (k : κ) (km : Bool) (h : InvR s) : I
 theorem invR_reap (cfg : Cfg) (s : St κ) (h : InvR s) : InvR (reapStep cfg s) := by
   unfold reapStep
   split
-  · exact h
+  · unfold markUnstarted
+    split
+    · exact invR_congr s _ h rfl rfl rfl rfl rfl rfl rfl (fun _ hx => hx) rfl rfl rfl rfl
+    · exact h
   · obtain ⟨e1, e2, e3, e4, e5, e6, _⟩ := C13.reapCfg_fields (!cfg.reaperDetached) s.u
     exact invR_congr s _ h e1 e2 e3 e5 e6 e4 rfl (fun _ hx => hx) rfl rfl rfl rfl
 
@@ -724,12 +748,35 @@ theorem invC_create (cfg : Cfg) (s : St κ) (t : Task) (wc pre : Bool) (h : InvC
     · exact h.loop t
     · intro hh; simp at hh
 
+theorem invC_killUnstarted (cfg : Cfg) (s : St κ) (t : Task) (h : InvC cfg s) (hp : s.phase t = .created) :
+    InvC cfg (killUnstarted s t) := by
+  unfold killUnstarted
+  refine invC_update cfg s _ t h ?_ ?_ ?_ ?_ ?_ ?_ ?_ ?_
+  · intro x hx
+    exact ⟨rfl, upd_other _ _ _ _ hx, upd_other _ _ _ _ hx, rfl, upd_other _ _ _ _ hx, rfl, rfl, rfl,
+           upd_other _ _ _ _ hx, rfl⟩
+  · exact h.keys t
+  · simp only [upd_same]
+    cases hc : s.cb t with
+    | none => simp
+    | some l => exact h.keys t l hc
+  · intro hh; simp at hh
+  · intro hh; simp at hh
+  · intro _ _
+    have : ranOf s t = [] := h.pre t (Or.inr (Or.inl hp))
+    simp only [upd_same, List.take_zero, Nat.zero_le, and_true]
+    exact this
+  · exact h.loop t
+  · intro _ _ hb; simp at hb
+
 theorem invC_start (cfg : Cfg) (s : St κ) (t : Task) (h : InvC cfg s) : InvC cfg (startStep s t) := by
   unfold startStep
   split
   · exact h
   · rename_i hp
     have hp : s.phase t = .created := Classical.not_not.1 hp
+    split
+    · exact invC_killUnstarted cfg s t h hp
     refine invC_update cfg s _ t h ?_ ?_ ?_ ?_ ?_ ?_ ?_ ?_
     · intro x hx
       refine ⟨?_, rfl, upd_other _ _ _ _ hx, rfl, rfl, rfl, rfl, rfl, rfl, rfl⟩
@@ -1046,7 +1093,9 @@ theorem invC_step (cfg : Cfg) (s : St κ) (op : Op κ) (h : InvC cfg s) : InvC c
     · exact h
   | reap =>
     simp only [step, reapStep]; split
-    · exact h
+    · unfold markUnstarted; split
+      · exact invC_u cfg s _ h
+      · exact h
     · exact invC_u cfg s _ h
   | endBody t oc => exact invC_endBody cfg s t oc h
   | cbBegin t => exact invC_cbBegin cfg s t h
@@ -1068,16 +1117,19 @@ theorem invC_run (cfg : Cfg) (ops : List (Op κ)) : InvC cfg (run cfg ops) := in
   callback, or – live-dict iteration only – the `RuntimeError` of a dict resized while its `finally` ran;
 * every other finished task finished with its body's outcome. -/
 structure InvL (cfg : Cfg) (s : St κ) : Prop where
-  leak : ∀ t, s.leaked t = true → cfg.cleanupAlways = false ∧ s.phase t = .done ∧ s.bailed t ≠ none
+  leak : ∀ t, s.leaked t = true →
+    (cfg.cleanupAlways = false ∨ s.stillborn t = true) ∧ s.phase t = .done ∧ s.bailed t ≠ none
   bail : ∀ t r, s.bailed t = some r → s.phase t = .done ∧ s.result t = some r ∧
     (r = .cancelled ∨ (r = .error ∧ s.touched t = true ∧ cfg.snapshotIter = false))
   res : ∀ t, s.phase t = .done → s.bailed t = none → s.result t = some (resultOf (s.outcome t))
 
 theorem invL_update (cfg : Cfg) (s s' : St κ) (t : Task) (h : InvL cfg s)
+    (es : ∀ x, s.stillborn x = true → s'.stillborn x = true)
     (fo : ∀ x, x ≠ t → s'.leaked x = s.leaked x ∧ s'.phase x = s.phase x ∧
       (s.touched x = true → s'.touched x = true) ∧ s'.result x = s.result x ∧ s'.bailed x = s.bailed x ∧
       s'.outcome x = s.outcome x)
-    (l1 : s'.leaked t = true → cfg.cleanupAlways = false ∧ s'.phase t = .done ∧ s'.bailed t ≠ none)
+    (l1 : s'.leaked t = true →
+      (cfg.cleanupAlways = false ∨ s'.stillborn t = true) ∧ s'.phase t = .done ∧ s'.bailed t ≠ none)
     (l2 : ∀ r, s'.bailed t = some r → s'.phase t = .done ∧ s'.result t = some r ∧
       (r = .cancelled ∨ (r = .error ∧ s'.touched t = true ∧ cfg.snapshotIter = false)))
     (l3 : s'.phase t = .done → s'.bailed t = none → s'.result t = some (resultOf (s'.outcome t))) :
@@ -1088,7 +1140,10 @@ theorem invL_update (cfg : Cfg) (s s' : St κ) (t : Task) (h : InvL cfg s)
     by_cases e : x = t
     · subst e; exact l1
     · obtain ⟨e1, e2, _, _, e5, _⟩ := fo x e
-      rw [e1, e2, e5]; exact h1 x
+      rw [e1, e2, e5]
+      intro hl
+      obtain ⟨a, b, c⟩ := h1 x hl
+      exact ⟨a.imp id (es x), b, c⟩
   · intro x r
     by_cases e : x = t
     · subst e; exact l2 r
@@ -1105,10 +1160,11 @@ theorem invL_update (cfg : Cfg) (s s' : St κ) (t : Task) (h : InvL cfg s)
 
 theorem invL_congr (cfg : Cfg) (s s' : St κ) (h : InvL cfg s) (e1 : s'.leaked = s.leaked) (e2 : s'.phase = s.phase)
     (e3 : ∀ x, s.touched x = true → s'.touched x = true) (e4 : s'.result = s.result)
-    (e5 : s'.bailed = s.bailed) (e6 : s'.outcome = s.outcome) : InvL cfg s' := by
+    (e5 : s'.bailed = s.bailed) (e6 : s'.outcome = s.outcome) (e7 : s'.stillborn = s.stillborn := by rfl) :
+    InvL cfg s' := by
   obtain ⟨h1, h2, h3⟩ := h
   refine ⟨?_, ?_, ?_⟩
-  · intro x; rw [e1, e2, e5]; exact h1 x
+  · intro x; rw [e1, e2, e5, e7]; exact h1 x
   · intro x r; rw [e2, e4, e5]
     intro hb
     obtain ⟨a, b, c⟩ := h2 x r hb
@@ -1135,9 +1191,9 @@ theorem invL_fresh (cfg : Cfg) (s : St κ) (t : Task) (h : InvL cfg s) (hp : s.p
 theorem invL_phase (cfg : Cfg) (s s' : St κ) (t : Task) (h : InvL cfg s) (hp : s.phase t ≠ .done)
     (hp' : s'.phase t ≠ .done) (el : s'.leaked = s.leaked) (eb : s'.bailed = s.bailed)
     (fo : ∀ x, x ≠ t → s'.phase x = s.phase x) (et : s'.touched = s.touched) (er : s'.result = s.result)
-    (eo : ∀ x, x ≠ t → s'.outcome x = s.outcome x) : InvL cfg s' := by
+    (eo : ∀ x, x ≠ t → s'.outcome x = s.outcome x) (esb : s'.stillborn = s.stillborn := by rfl) : InvL cfg s' := by
   obtain ⟨f1, f2⟩ := invL_fresh cfg s t h hp
-  refine invL_update cfg s _ t h ?_ ?_ ?_ ?_
+  refine invL_update cfg s _ t h (fun x e => by rw [esb]; exact e) ?_ ?_ ?_ ?_
   · intro x hx
     exact ⟨by rw [el], fo x hx, fun e => by rw [et]; exact e, by rw [er], by rw [eb], eo x hx⟩
   · intro hl; rw [el, f1] at hl; cases hl
@@ -1150,7 +1206,7 @@ theorem invL_finish (cfg : Cfg) (s : St κ) (t : Task) (r : Res) (h : InvL cfg s
     InvL cfg (finish s t r) := by
   unfold finish
   have hnd : s.phase t ≠ .done := by rw [hp]; simp
-  refine invL_update cfg s _ t h ?_ ?_ ?_ ?_
+  refine invL_update cfg s _ t h (fun _ e => e) ?_ ?_ ?_ ?_
   · intro x hx
     exact ⟨rfl, upd_other _ _ _ _ hx, fun e => e, upd_other _ _ _ _ hx, rfl, rfl⟩
   · intro hl
@@ -1173,7 +1229,7 @@ theorem invL_bail (cfg : Cfg) (s : St κ) (t : Task) (r : Res) (h : InvL cfg s) 
   unfold bail
   split
   · unfold finish
-    refine invL_update cfg s _ t h ?_ ?_ ?_ ?_
+    refine invL_update cfg s _ t h (fun _ e => e) ?_ ?_ ?_ ?_
     · intro x hx
       exact ⟨rfl, upd_other _ _ _ _ hx, fun e => e, upd_other _ _ _ _ hx, upd_other _ _ _ _ hx, rfl⟩
     · intro hl; exact absurd (h.leak t hl).2.1 hnd
@@ -1184,10 +1240,10 @@ theorem invL_bail (cfg : Cfg) (s : St κ) (t : Task) (r : Res) (h : InvL cfg s) 
     · intro _ hb; simp at hb
   · rename_i hca
     unfold abort
-    refine invL_update cfg s _ t h ?_ ?_ ?_ ?_
+    refine invL_update cfg s _ t h (fun _ e => e) ?_ ?_ ?_ ?_
     · intro x hx
       exact ⟨upd_other _ _ _ _ hx, upd_other _ _ _ _ hx, fun e => e, upd_other _ _ _ _ hx, upd_other _ _ _ _ hx, rfl⟩
-    · intro _; exact ⟨not_true_false hca, by simp, by simp⟩
+    · intro _; exact ⟨Or.inl (not_true_false hca), by simp, by simp⟩
     · intro r' hb
       simp only [upd_same, Option.some.injEq] at hb
       subst hb
@@ -1221,6 +1277,21 @@ theorem invL_step (cfg : Cfg) (s : St κ) (op : Op κ) (hc : InvC cfg s) (h : In
     · exact h
     · rename_i hp
       have hp : s.phase t = .created := Classical.not_not.1 hp
+      split
+      · unfold killUnstarted
+        refine invL_update cfg s _ t h ?_ ?_ ?_ ?_ ?_
+        · intro x e
+          show upd s.stillborn t true x = true
+          simp only [upd_apply]; split <;> simp [e]
+        · intro x hx
+          exact ⟨upd_other _ _ _ _ hx, upd_other _ _ _ _ hx, fun e => e, upd_other _ _ _ _ hx,
+                 upd_other _ _ _ _ hx, rfl⟩
+        · intro _; exact ⟨Or.inr (by simp), by simp, by simp⟩
+        · intro r hb
+          simp only [upd_same, Option.some.injEq] at hb
+          subst hb
+          exact ⟨by simp, by simp, Or.inl rfl⟩
+        · intro _ hb; simp at hb
       exact invL_phase cfg s _ t h (by rw [hp]; simp) (by simp) rfl rfl (fun x hx => upd_other _ _ _ _ hx) rfl rfl
         (fun _ _ => rfl)
   | storeCtx t =>
@@ -1251,7 +1322,9 @@ theorem invL_step (cfg : Cfg) (s : St κ) (op : Op κ) (hc : InvC cfg s) (h : In
     · exact h
   | reap =>
     simp only [step, reapStep]; split
-    · exact h
+    · unfold markUnstarted; split
+      · exact invL_congr cfg s _ h rfl rfl (fun _ e => e) rfl rfl rfl
+      · exact h
     · exact invL_congr cfg s _ h rfl rfl (fun _ e => e) rfl rfl rfl
   | endBody t oc =>
     simp only [step, endBodyStep]; split
